@@ -33,12 +33,12 @@ VARIABLES l, sid, texts, tmpls,
           nsent, nkill, \* successful try-sends / receipts logged
           lastDisp,     \* last display: [v, nlines, head] or None
           started,      \* commands started so far: [pid, v]
-          quitSig,      \* a kill try-send was logged (exit path reached killPreview)
+          quitSig,      \* outcome of the kill try-send of the exit path as far as logged: none | sent | dropped
           dev, phase    \* phase: run | exited
 vars == <<l, sid, texts, tmpls, issued, expectSig, reqs, cur, nsent, nkill, lastDisp, started, quitSig, dev, phase>>
 
 Init == /\ l = 1 /\ sid = -1 /\ texts = <<>> /\ tmpls = <<>> /\ issued = <<>> /\ expectSig = FALSE /\ reqs = <<>> /\ cur = None
-        /\ nsent = 0 /\ nkill = 0 /\ lastDisp = None /\ started = <<>> /\ quitSig = FALSE /\ dev = {} /\ phase = "run"
+        /\ nsent = 0 /\ nkill = 0 /\ lastDisp = None /\ started = <<>> /\ quitSig = "none" /\ dev = {} /\ phase = "run"
 
 Ev == TraceLog[l]
 Is(name) == l <= Len(TraceLog) /\ Ev.ev = name /\ l' = l + 1
@@ -46,7 +46,7 @@ Is(name) == l <= Len(TraceLog) /\ Ev.ev = name /\ l' = l + 1
 TBegin == /\ Is("begin")
           /\ sid' = Ev.sid /\ texts' = Ev.texts /\ tmpls' = Ev.tmpls
           /\ issued' = <<>> /\ expectSig' = FALSE /\ reqs' = <<>> /\ cur' = None /\ nsent' = 0 /\ nkill' = 0 /\ lastDisp' = None
-          /\ started' = <<>> /\ quitSig' = FALSE /\ dev' = {} /\ phase' = "run"
+          /\ started' = <<>> /\ quitSig' = "none" /\ dev' = {} /\ phase' = "run"
 
 -------------------------------------------------------------------------------
 (* what the placeholders of a template evaluate to - documented semantics of {n} {} {q} {+n} {+f} {f} (man fzf)   *)
@@ -89,20 +89,21 @@ TEnq == /\ Is("enq") /\ phase = "run" /\ ~expectSig
 (* counts only if no deviation-free reading of the whole session is accepted.                                        *)
 TSig == /\ Is("sig") /\ phase = "run"
         /\ expectSig' = FALSE
-        /\ quitSig' = (quitSig \/ Ev.immediately)
-        /\ (Ev.immediately => ~quitSig)                         \* killPreview is called once
+        /\ quitSig' = (IF Ev.immediately THEN (IF Ev.sent THEN "sent" ELSE "dropped") ELSE quitSig)
+        /\ (Ev.immediately => quitSig = "none")                 \* killPreview is called once
         /\ IF Ev.sent
            THEN nsent' = nsent + 1 /\ UNCHANGED dev
            ELSE /\ UNCHANGED nsent
                 /\ \/ UNCHANGED dev
-                   \/ /\ (InFlight \/ issued # <<>>)
+                   \/ /\ InFlight /\ (Ev.immediately \/ cur.kills = 0)     \* a command is being started / runs unsignalled
                       /\ dev' = dev \cup {IF Ev.immediately THEN "LostKillAtExit" ELSE "LostCancel"}
         /\ UNCHANGED <<sid, texts, tmpls, issued, reqs, cur, nkill, lastDisp, started, phase>>
 
 (* the previewer is sequential: it takes the next request only after the previous command was reaped; it takes one  *)
 (* of the announced requests, never one older than what it took before; versions count up by one.  Taking a request *)
 (* that is already superseded by a later announcement is where LostCancel can have happened as well.                 *)
-TPick == /\ Is("pick") /\ phase = "run" /\ (~InFlight \/ ~cur.started)      \* (a command that failed to start has no exit)
+Free == IF cur = None THEN TRUE ELSE (cur.exited \/ ~cur.started)                \* (a command that failed to start has no exit)
+TPick == /\ Is("pick") /\ phase = "run" /\ Free
          /\ Ev.version = Len(reqs) + 1
          /\ \E i \in 1..Len(issued) :
               /\ SameReq(issued[i], Ev)
@@ -157,12 +158,14 @@ OneAlive(e) == /\ e.overlaps = 0
 FinalState(e) == [item |-> e.cur, q |-> e.q, sel |-> e.sel]
 LastReq == reqs[Len(reqs)]
 NItemsOf(e) == IF e.sel = <<>> THEN 2 ELSE Len(e.sel) + 1
+Right(r, e) == /\ r.tag = e.tag
+               /\ r.item = e.cur \/ (NoItem(r.item) /\ NoItem(e.cur))
+               /\ (HasCode(e.tag, "q") => r.q = e.q)
+               /\ (HasCode(e.tag, "pn") \/ HasCode(e.tag, "pf") \/ HasCode(e.tag, "q") => r.nitems = NItemsOf(e))
 CaughtUp(e) ==
-    /\ issued = <<>> /\ ~expectSig /\ nsent = nkill
-    /\ reqs # <<>> /\ LastReq.tag = e.tag
-    /\ LastReq.item = e.cur \/ (NoItem(LastReq.item) /\ NoItem(e.cur))
-    /\ (HasCode(e.tag, "q") => LastReq.q = e.q)
-    /\ (HasCode(e.tag, "pn") \/ HasCode(e.tag, "pf") \/ HasCode(e.tag, "q") => LastReq.nitems = NItemsOf(e))
+    /\ ~expectSig /\ nkill <= nsent
+    /\ reqs # <<>> /\ Right(LastReq, e)
+    /\ \A k \in 1..Len(issued) : SameReq(issued[k], LastReq) /\ issued[k].tag = LastReq.tag     \* nothing different is waiting
     /\ IF NoItem(e.cur) /\ ~HasCode(e.tag, "q")
        THEN (* no line under the cursor, nothing to preview: no command, blank window *)
             /\ cur = None /\ e.procs = <<>> /\ lastDisp # None /\ lastDisp.v = Len(reqs) /\ lastDisp.nlines = 0
@@ -174,17 +177,27 @@ CaughtUp(e) ==
                   /\ e.pane = Expected(e.tag, FinalState(e))                     \* what the terminal shows
                   /\ e.log # <<>> /\ e.log[Len(e.log)].pid = cur.pid             \* what the command itself logged
                   /\ e.log[Len(e.log)].vals = Expected(e.tag, FinalState(e)))
+(* exactly what a lost cancel leads to, and nothing else: the command taken last is still in flight and was never   *)
+(* signalled, while the right request - the one announced last - waits in the box                                    *)
+StuckByLostCancel(e) ==
+    /\ "LostCancel" \in dev
+    /\ ~expectSig /\ nkill <= nsent
+    /\ InFlight /\ cur.kills = 0 /\ cur.v = Len(reqs)
+    /\ issued # <<>> /\ Right(issued[Len(issued)], e)
+    /\ (lastDisp # None /\ lastDisp.nlines > 0 => e.pane = lastDisp.head)
 TQuiet == /\ Is("quiet") /\ phase = "run"
           /\ OneAlive(Ev) /\ LogOK(Ev)
-          /\ (dev = {} /\ Ev.visible) => CaughtUp(Ev)
+          /\ Ev.visible => (CaughtUp(Ev) \/ StuckByLostCancel(Ev))
           /\ UNCHANGED <<sid, texts, tmpls, issued, expectSig, reqs, cur, nsent, nkill, lastDisp, started, quitSig, dev, phase>>
 
-(* End of the session: none survives.  A survivor is explained only by a kill that was dropped (LostKillAtExit) or  *)
-(* never attempted as far as the trace shows (ExitBeforeKill: the process was gone first).                            *)
+(* End of the session: none survives.  A survivor is explained only by a kill that was dropped (LostKillAtExit), or  *)
+(* one that was never attempted / taken by the watcher but not carried out before the process was gone                *)
+(* (ExitBeforeKill).                                                                                                  *)
 TExit == /\ Is("exit") /\ phase = "run"
          /\ \/ Ev.survivors = <<>> /\ UNCHANGED dev
-            \/ Ev.survivors # <<>> /\ "LostKillAtExit" \in dev /\ UNCHANGED dev
-            \/ Ev.survivors # <<>> /\ ~quitSig /\ dev' = dev \cup {"ExitBeforeKill"}
+            \/ /\ Ev.survivors # <<>> /\ InFlight /\ cur.started /\ Ev.survivors = <<cur.pid>> /\ Ev.overlaps = 0
+               /\ \/ quitSig = "dropped" /\ "LostKillAtExit" \in dev /\ UNCHANGED dev
+                  \/ quitSig # "dropped" /\ (cur.kills = 0 \/ quitSig = "none") /\ dev' = dev \cup {"ExitBeforeKill"}
          /\ phase' = "exited"
          /\ UNCHANGED <<sid, texts, tmpls, issued, expectSig, reqs, cur, nsent, nkill, lastDisp, started, quitSig>>
 
